@@ -379,6 +379,19 @@ func (r *ksRun) tamper(a Args) string {
 
 		st.KeysHmacHash = append([]byte{}, st.KeysHmacHash...)
 		st.KeysHmacHash[0] ^= 0x08
+	case "striptag": // the integrity tag removed altogether
+		if len(st.KeysHmacHash) == 0 {
+			return "skip"
+		}
+
+		st.KeysHmacHash = nil
+	case "trunctag": // … or cut short
+		n := a.Int("n")
+		if len(st.KeysHmacHash) == 0 || n >= len(st.KeysHmacHash) {
+			return "skip"
+		}
+
+		st.KeysHmacHash = append([]byte{}, st.KeysHmacHash[:n]...)
 	case "drop":
 		if !present {
 			return "skip"
@@ -774,7 +787,11 @@ func (s *ksShadow) genTamperLine(r *Rand, d6 int) string {
 	}
 
 	for {
-		switch r.Intn(12) {
+		switch r.Intn(14) {
+		case 12:
+			return "tamper kind=striptag"
+		case 13:
+			return fmt.Sprintf("tamper kind=trunctag n=%d", Pick(r, []int{0, 1, 16, 31}))
 		case 0:
 			return "tamper kind=flipblob id=" + victim
 		case 1:
